@@ -534,7 +534,7 @@ def check(report, tier, only=None):
            ('config', ob_config_accessors), ('wired', ob_wiring), ('peer_call', ob_peer_uses_layer),
            # the RequestTimeout status produced by the inbound layer reaches the caller only if the stream handler writes what the service returned
            ('timeout_reply_written', lambda rep: __import__('props.rpcpath', fromlist=['x']).ob_do_handle(rep, PROP)),
-           ('typed_client', ob_typed_client_forwards_request)]
+           ('typed_client', ob_typed_client_forwards_request), ('rpc_entry_points', ob_rpc_only_through_layer)]
     for n, f in obs:
         if only and not any(s in n for s in only):
             continue
@@ -550,6 +550,42 @@ def implied(ex, pc, c):
 def replay(path):
     print(open(path).read())
     return 0
+
+
+def ob_rpc_only_through_layer(report, prop=None):
+    """the outbound default and the timeout header are enforced by a layer wrapped around `Peer`'s service: they apply to an RPC only if the RPC is issued through
+    `<Peer as Service>::call`.  Every crate-local caller of the raw stream-level RPC (`Peer::do_rpc`) must therefore be the future `Service::call` builds - a
+    convenience entry point (`Peer::rpc`, `Network::rpc`) that calls it directly skips the whole outbound stack, the deadline included."""
+    prop = prop or PROP
+
+    def body(ob):
+        ex = e2.executor('anemo', [], max_depth=1)
+        prog = ex.prog
+        target = find_method(prog, 'Peer', 'do_rpc')
+        svc_call = find_method(prog, 'Peer', 'call', trait='Service')
+        callers = []
+        for raw, fs in prog.fns.items():
+            for f in fs:
+                if not f.blocks:
+                    continue
+                for blk in f.blocks.values():
+                    for st, _ in blk:
+                        if st and st[0] == 'call' and isinstance(st[2], str):
+                            g = ex.resolve(st[2])
+                            if g is not None and g.raw == target.raw:
+                                callers.append(f)
+        callers = list({f.raw: f for f in callers}.values())
+        if not callers:
+            return ob.done([ex], 'inconclusive', 'Peer::do_rpc has no caller in the crate', paths=0)
+        bad = [f for f in callers if not (f.raw == svc_call.raw or f.raw.startswith(svc_call.raw + '::{closure#'))]
+        if bad:
+            o = ob.done([ex], 'violated', f'{bad[0].name} calls Peer::do_rpc directly, not through <Peer as Service>::call: RPCs issued that way bypass the outbound request layer - neither the '
+                        'configured outbound timeout nor the request\'s timeout header bounds them at the caller', {'direct_callers': [f.name for f in callers]}, key='rpc-bypasses-layer', paths=len(callers))
+            o.replay = write_replay(prop, o.name, {'direct_callers': [f.name for f in callers]})
+            return o
+        ob.done([ex], 'held', '', {'direct_callers': [f.name for f in callers]}, paths=len(callers))
+    return guarded(report, 'rpc_only_through_outbound_layer', 'call graph (MIR): the only crate-local caller of Peer::do_rpc is the future built by <Peer as Service>::call (which wraps it in the outbound layer, '
+                   'checked by peer_call_through_outbound_layer)', ['Peer::do_rpc', '<Peer as Service>::call', 'every crate function (call sites)'], {'call graph': 'static calls as the executor resolves them'}, body)
 
 
 def ob_typed_client_forwards_request(report, prop=None):
